@@ -1,5 +1,5 @@
-(* C12 proofs, part 9: explicit pairwise sums for the (centred or not) covariance, pairs taken in the order of the
-   first coordinate (the order in which _calculateGeneralSolution1 meets them). *)
+(* C12 proofs, part 9: explicit pairwise sums for the (centred or not) covariance; exchange of the two samples;
+   exchange of the two variables (C_ij(h) = C_ji(-h)). *)
 From Coq Require Import List ZArith QArith Qabs Qround Qminmax Bool Lqa Lia Permutation.
 From Gst Require Import lib.QAux C12.Model C12.Spec C12.Proofs_enum C12.Proofs_lag C12.Proofs_acc C12.Proofs_geom C12.Proofs_vg C12.Proofs_main.
 Import ListNotations.
@@ -51,6 +51,9 @@ Proof.
     intros a b Ha Hb. apply Hsym; eapply Permutation_in; try (symmetry; exact Hp1); assumption.
 Qed.
 
+Lemma fsum_cons ufld k u us : fsum ufld k (u :: us) == fsum ufld k [u] + fsum ufld k us.
+Proof. change (u :: us) with ([u] ++ us). apply fsum_app. Qed.
+
 (* ---------------------------------------------------------------- one pair *)
 Section AsymPair.
 Variable ufld : upd -> Q.
@@ -58,16 +61,84 @@ Variables (npas : nat) (pc : pctx) (a b : sample) (ww : Q).
 Hypothesis Hipas : (p_ipas pc < npas)%nat.
 Hypothesis Horient : p_orient pc <> Ozero.
 
-Definition asym_upd (iv jv : nat) (o : orient) (v : Q) : upd := mk_upd true npas pc iv jv o ww v v 0.
+Definition t1_of (iv jv : nat) : option Q := match zval a iv, zval b jv with Some z11, Some z22 => Some (z11 * z22) | _, _ => None end.
+Definition t2_of (iv jv : nat) : option Q := match zval b iv, zval a jv with Some z12, Some z21 => Some (z12 * z21) | _, _ => None end.
+Definition au (iv jv : nat) (o : orient) (w v : Q) : upd := mk_upd true npas pc iv jv o w v v 0.
 
-(* what the two _setResult calls of _evaluateCovariance add to the cell (iv, jv, ipas, o) *)
+(* the updates of one (iv, jv) iteration of _evaluateCovariance *)
+Definition asym_elem (iv jv : nat) : list upd :=
+  let o := p_orient pc in
+  if p_coinc pc then
+    (match t1_of iv jv with Some v => [au iv jv o (ww / 2) v; au iv jv (flip o) (ww / 2) v] | None => [] end) ++
+    (match t2_of iv jv with Some v => [au iv jv o (ww / 2) v; au iv jv (flip o) (ww / 2) v] | None => [] end)
+  else
+    (match t1_of iv jv with Some v => [au iv jv o ww v] | None => [] end) ++
+    (match t2_of iv jv with Some v => [au iv jv (flip o) ww v] | None => [] end).
+Lemma eval_asym_elems iv : eval_asym npas pc a b ww iv = flat_map (asym_elem iv) (seq 0 (S iv)).
+Proof. reflexivity. Qed.
+
+(* what these updates add to the cell (iv, jv, ipas, o) *)
 Definition asym_term (iv jv : nat) (o : orient) : Q :=
-  match zval a iv, zval b iv with
-  | Some z11, Some z12 =>
-      (if orient_eqb (p_orient pc) o then match zval b jv with Some z22 => ufld (asym_upd iv jv o (z11 * z22)) | None => 0 end else 0) +
-      (if orient_eqb (flip (p_orient pc)) o then match zval a jv with Some z21 => ufld (asym_upd iv jv o (z12 * z21)) | None => 0 end else 0)
-  | _, _ => 0
-  end.
+  if p_coinc pc then
+    (match t1_of iv jv with Some v => ufld (au iv jv o (ww / 2) v) | None => 0 end) +
+    (match t2_of iv jv with Some v => ufld (au iv jv o (ww / 2) v) | None => 0 end)
+  else
+    (if orient_eqb (p_orient pc) o then match t1_of iv jv with Some v => ufld (au iv jv o ww v) | None => 0 end else 0) +
+    (if orient_eqb (flip (p_orient pc)) o then match t2_of iv jv with Some v => ufld (au iv jv o ww v) | None => 0 end else 0).
+
+Lemma fsum_au iv jv k o iv' jv' o' w v :
+  (jv <= iv)%nat -> (jv' <= iv')%nat -> (k < npas)%nat -> o <> Ozero -> o' <> Ozero ->
+  fsum ufld (dir_address true npas iv jv k o) [au iv' jv' o' w v]
+  == if (Nat.eqb iv iv' && Nat.eqb jv jv' && Nat.eqb k (p_ipas pc) && orient_eqb o o')%bool then ufld (au iv' jv' o' w v) else 0.
+Proof.
+  intros Hj Hj' Hk Ho Ho'. rewrite fsum_one. unfold au at 1. cbn [u_addr mk_upd].
+  destruct (Nat.eqb_spec (dir_address true npas iv' jv' (p_ipas pc) o') (dir_address true npas iv jv k o)) as [E|E].
+  - apply asym_address_inj in E; try assumption. destruct E as (-> & -> & <- & ->).
+    rewrite !Nat.eqb_refl. destruct (orient_eqb_spec o o); [reflexivity|congruence].
+  - destruct (Nat.eqb_spec iv iv') as [<-|]; [|reflexivity]. destruct (Nat.eqb_spec jv jv') as [<-|]; [|reflexivity].
+    destruct (Nat.eqb_spec k (p_ipas pc)) as [->|]; [|reflexivity]. destruct (orient_eqb_spec o o') as [<-|]; [|reflexivity].
+    congruence.
+Qed.
+
+Lemma fsum_elem_other iv jv k o iv' jv' :
+  (jv <= iv)%nat -> (jv' <= iv')%nat -> (k < npas)%nat -> o <> Ozero ->
+  (iv, jv) <> (iv', jv') \/ k <> p_ipas pc ->
+  fsum ufld (dir_address true npas iv jv k o) (asym_elem iv' jv') == 0.
+Proof.
+  intros Hj Hj' Hk Ho Hne.
+  assert (Hf : flip (p_orient pc) <> Ozero) by (apply flip_nz; exact Horient).
+  assert (Z : forall o' w v, o' <> Ozero -> fsum ufld (dir_address true npas iv jv k o) [au iv' jv' o' w v] == 0).
+  { intros o' w v Ho'. rewrite (fsum_au iv jv k o iv' jv' o' w v Hj Hj' Hk Ho Ho').
+    destruct (Nat.eqb_spec iv iv') as [<-|]; [|reflexivity]. destruct (Nat.eqb_spec jv jv') as [<-|]; [|reflexivity].
+    destruct (Nat.eqb_spec k (p_ipas pc)) as [->|]; [|reflexivity]. exfalso. destruct Hne as [H|H]; congruence. }
+  unfold asym_elem. cbv zeta.
+  destruct (p_coinc pc); rewrite fsum_app;
+    destruct (t1_of iv' jv'); destruct (t2_of iv' jv');
+    rewrite ?(fsum_cons ufld _ (au iv' jv' (p_orient pc) (ww / 2) _)), ?Z, ?fsum_nil by assumption; ring.
+Qed.
+
+Lemma fsum_elem_at iv jv o :
+  (jv <= iv)%nat -> o <> Ozero ->
+  fsum ufld (dir_address true npas iv jv (p_ipas pc) o) (asym_elem iv jv) == asym_term iv jv o.
+Proof.
+  intros Hj Ho.
+  assert (Hf : flip (p_orient pc) <> Ozero) by (apply flip_nz; exact Horient).
+  assert (Z : forall o' w v, o' <> Ozero ->
+              fsum ufld (dir_address true npas iv jv (p_ipas pc) o) [au iv jv o' w v] == if orient_eqb o o' then ufld (au iv jv o' w v) else 0).
+  { intros o' w v Ho'. rewrite (fsum_au iv jv (p_ipas pc) o iv jv o' w v Hj Hj Hipas Ho Ho'). rewrite !Nat.eqb_refl. reflexivity. }
+  unfold asym_elem, asym_term. cbv zeta.
+  assert (Hcase : (p_orient pc = o /\ flip (p_orient pc) <> o) \/ (p_orient pc <> o /\ flip (p_orient pc) = o)).
+  { destruct (p_orient pc), o; cbn; try congruence; auto. }
+  destruct (p_coinc pc); rewrite fsum_app;
+    destruct (t1_of iv jv); destruct (t2_of iv jv);
+    rewrite ?(fsum_cons ufld _ (au iv jv (p_orient pc) (ww / 2) _)), ?Z, ?fsum_nil by assumption;
+    destruct Hcase as [[E1 E2]|[E1 E2]];
+    (destruct (orient_eqb_spec o (p_orient pc)); try congruence);
+    (destruct (orient_eqb_spec o (flip (p_orient pc))); try congruence);
+    (destruct (orient_eqb_spec (p_orient pc) o); try congruence);
+    (destruct (orient_eqb_spec (flip (p_orient pc)) o); try congruence);
+    rewrite <- ?E1, <- ?E2; try ring.
+Qed.
 
 Lemma fsum_eval_asym_at iv jv o nvar :
   (jv <= iv)%nat -> (iv < nvar)%nat -> o <> Ozero ->
@@ -75,51 +146,12 @@ Lemma fsum_eval_asym_at iv jv o nvar :
   == asym_term iv jv o.
 Proof.
   intros Hj Hi Ho.
-  set (k0 := dir_address true npas iv jv (p_ipas pc) o).
-  assert (Hf : flip (p_orient pc) <> Ozero) by (apply flip_nz; exact Horient).
   rewrite fsum_flat_map. rewrite (sumQ_single _ nvar iv Hi).
-  - unfold eval_asym, asym_term.
-    destruct (zval a iv) as [z11|]; [|reflexivity].
-    destruct (zval b iv) as [z12|]; [|reflexivity].
-    rewrite fsum_flat_map. rewrite (sumQ_single _ (S iv) jv ltac:(lia)).
-    + rewrite fsum_app. apply Qplus_comp.
-      * destruct (zval b jv) as [z22|].
-        -- rewrite fsum_one. cbn [u_addr mk_upd].
-           destruct (orient_eqb_spec (p_orient pc) o) as [E|E].
-           ++ rewrite E. fold k0. rewrite Nat.eqb_refl. unfold asym_upd. reflexivity.
-           ++ destruct (Nat.eqb_spec (dir_address true npas iv jv (p_ipas pc) (p_orient pc)) k0) as [E'|E']; [|reflexivity].
-              exfalso. apply asym_address_inj in E'; try lia; try assumption. destruct E' as (_ & _ & _ & E'). contradiction.
-        -- destruct (orient_eqb (p_orient pc) o); reflexivity.
-      * destruct (zval a jv) as [z21|].
-        -- rewrite fsum_one. cbn [u_addr mk_upd].
-           destruct (orient_eqb_spec (flip (p_orient pc)) o) as [E|E].
-           ++ rewrite E. fold k0. rewrite Nat.eqb_refl. unfold asym_upd. reflexivity.
-           ++ destruct (Nat.eqb_spec (dir_address true npas iv jv (p_ipas pc) (flip (p_orient pc))) k0) as [E'|E']; [|reflexivity].
-              exfalso. apply asym_address_inj in E'; try lia; try assumption. destruct E' as (_ & _ & _ & E'). contradiction.
-        -- destruct (orient_eqb (flip (p_orient pc)) o); reflexivity.
-    + intros jv' Hjv' Hne. rewrite fsum_app.
-      assert (Z1 : fsum ufld k0 (match zval b jv' with Some z22 => [mk_upd true npas pc iv jv' (p_orient pc) ww (z11 * z22) (z11 * z22) 0] | None => [] end) == 0).
-      { destruct (zval b jv'); [|reflexivity]. rewrite fsum_one. cbn [u_addr mk_upd].
-        destruct (Nat.eqb_spec (dir_address true npas iv jv' (p_ipas pc) (p_orient pc)) k0) as [E'|E']; [|reflexivity].
-        exfalso. apply asym_address_inj in E'; try lia; try assumption. }
-      assert (Z2 : fsum ufld k0 (match zval a jv' with Some z21 => [mk_upd true npas pc iv jv' (flip (p_orient pc)) ww (z12 * z21) (z12 * z21) 0] | None => [] end) == 0).
-      { destruct (zval a jv'); [|reflexivity]. rewrite fsum_one. cbn [u_addr mk_upd].
-        destruct (Nat.eqb_spec (dir_address true npas iv jv' (p_ipas pc) (flip (p_orient pc))) k0) as [E'|E']; [|reflexivity].
-        exfalso. apply asym_address_inj in E'; try lia; try assumption. }
-      rewrite Z1, Z2. reflexivity.
-  - intros iv' Hiv' Hne. unfold eval_asym.
-    destruct (zval a iv') as [z11|]; [|reflexivity].
-    destruct (zval b iv') as [z12|]; [|reflexivity].
-    rewrite fsum_flat_map. apply sumQ_zero. intros jv' Hin. apply in_seq in Hin. rewrite fsum_app.
-    assert (Z1 : fsum ufld k0 (match zval b jv' with Some z22 => [mk_upd true npas pc iv' jv' (p_orient pc) ww (z11 * z22) (z11 * z22) 0] | None => [] end) == 0).
-    { destruct (zval b jv'); [|reflexivity]. rewrite fsum_one. cbn [u_addr mk_upd].
-      destruct (Nat.eqb_spec (dir_address true npas iv' jv' (p_ipas pc) (p_orient pc)) k0) as [E'|E']; [|reflexivity].
-      exfalso. apply asym_address_inj in E'; try lia; try assumption. }
-    assert (Z2 : fsum ufld k0 (match zval a jv' with Some z21 => [mk_upd true npas pc iv' jv' (flip (p_orient pc)) ww (z12 * z21) (z12 * z21) 0] | None => [] end) == 0).
-    { destruct (zval a jv'); [|reflexivity]. rewrite fsum_one. cbn [u_addr mk_upd].
-      destruct (Nat.eqb_spec (dir_address true npas iv' jv' (p_ipas pc) (flip (p_orient pc))) k0) as [E'|E']; [|reflexivity].
-      exfalso. apply asym_address_inj in E'; try lia; try assumption. }
-    rewrite Z1, Z2. reflexivity.
+  - rewrite eval_asym_elems, fsum_flat_map. rewrite (sumQ_single _ (S iv) jv ltac:(lia)).
+    + apply fsum_elem_at; assumption.
+    + intros jv' Hjv' Hne. apply fsum_elem_other; try assumption; try lia. left. congruence.
+  - intros iv' Hiv' Hne. rewrite eval_asym_elems, fsum_flat_map. apply sumQ_zero. intros jv' Hin. apply in_seq in Hin.
+    apply fsum_elem_other; try assumption; try lia. left. congruence.
 Qed.
 
 Lemma fsum_eval_asym_other nvar iv jv k o :
@@ -127,20 +159,9 @@ Lemma fsum_eval_asym_other nvar iv jv k o :
   fsum ufld (dir_address true npas iv jv k o) (flat_map (eval_asym npas pc a b ww) (seq 0 nvar)) == 0.
 Proof.
   intros Hj Hk Ho Hne.
-  assert (Hf : flip (p_orient pc) <> Ozero) by (apply flip_nz; exact Horient).
-  rewrite fsum_flat_map. apply sumQ_zero. intros iv' _. unfold eval_asym.
-  destruct (zval a iv') as [z11|]; [|reflexivity].
-  destruct (zval b iv') as [z12|]; [|reflexivity].
-  rewrite fsum_flat_map. apply sumQ_zero. intros jv' Hin. apply in_seq in Hin. rewrite fsum_app.
-  assert (Z1 : fsum ufld (dir_address true npas iv jv k o) (match zval b jv' with Some z22 => [mk_upd true npas pc iv' jv' (p_orient pc) ww (z11 * z22) (z11 * z22) 0] | None => [] end) == 0).
-  { destruct (zval b jv'); [|reflexivity]. rewrite fsum_one. cbn [u_addr mk_upd].
-    destruct (Nat.eqb_spec (dir_address true npas iv' jv' (p_ipas pc) (p_orient pc)) (dir_address true npas iv jv k o)) as [E'|E']; [|reflexivity].
-    exfalso. apply asym_address_inj in E'; try lia; try assumption. }
-  assert (Z2 : fsum ufld (dir_address true npas iv jv k o) (match zval a jv' with Some z21 => [mk_upd true npas pc iv' jv' (flip (p_orient pc)) ww (z12 * z21) (z12 * z21) 0] | None => [] end) == 0).
-  { destruct (zval a jv'); [|reflexivity]. rewrite fsum_one. cbn [u_addr mk_upd].
-    destruct (Nat.eqb_spec (dir_address true npas iv' jv' (p_ipas pc) (flip (p_orient pc))) (dir_address true npas iv jv k o)) as [E'|E']; [|reflexivity].
-    exfalso. apply asym_address_inj in E'; try lia; try assumption. }
-  rewrite Z1, Z2. reflexivity.
+  rewrite fsum_flat_map. apply sumQ_zero. intros iv' _.
+  rewrite eval_asym_elems, fsum_flat_map. apply sumQ_zero. intros jv' Hin. apply in_seq in Hin.
+  apply fsum_elem_other; try assumption; try lia. right. exact Hne.
 Qed.
 End AsymPair.
 
@@ -155,23 +176,26 @@ Hypothesis Htol : 0 <= d_tol d.
 Hypothesis Hps0 : 0 <= d_psmin d.
 Hypothesis Hcodir : 0 < Qred (dot (d_codir d) (d_codir d)).
 
-(* the side on which z_i(a) z_j(b) is recorded: "+" when b lies strictly ahead of a, or beside it, along the direction;
-   "-" when it lies behind or when the two samples coincide *)
+(* the side on which z_i(a) z_j(b) is recorded: "+" when b lies ahead of a, or beside it, along the direction; "-" otherwise *)
 Definition pair_side (a b : sample) : orient :=
   let g := geo_pair d a b in
   if qltb 0 (g_d2 g) && negb (qltb (g_dproj g) 0) then Oplus else Ominus.
+Definition coincident (a b : sample) : bool := qleb (g_d2 (geo_pair d a b)) 0.
 
-(* contribution of the ordered pair (a, b) to the cell (iv, jv, lag k, side o): weight and weighted product *)
+Definition prod1 (iv jv : nat) (a b : sample) : option Q :=
+  match zval a iv, zval b jv with Some x, Some y => Some (x * y) | _, _ => None end.
+Definition wterm (w : Q) (t : option Q) : Q * Q := match t with Some v => (w, w * v) | None => (0, 0) end.
+Definition padd (p q : Q * Q) : Q * Q := (fst p + fst q, snd p + snd q).
+
+(* contribution of the ordered pair (a, b) to the cell (iv, jv, lag k, side o): (weight, weighted product).
+   z_i(a) z_j(b) goes to the side where b is ahead of a, z_i(b) z_j(a) to the other side; a product needs only its own
+   two values; coincident samples share both products between the two sides. *)
 Definition cov_pair (iv jv k : nat) (o : orient) (a b : sample) : Q * Q :=
   if pair_in d k a b then
-    match zval a iv, zval b iv with
-    | Some z11, Some z12 =>
-        let ww := get_weight cf a * get_weight cf b in
-        let t1 := if orient_eqb (pair_side a b) o then match zval b jv with Some z22 => (ww, ww * (z11 * z22)) | None => (0, 0) end else (0, 0) in
-        let t2 := if orient_eqb (flip (pair_side a b)) o then match zval a jv with Some z21 => (ww, ww * (z12 * z21)) | None => (0, 0) end else (0, 0) in
-        (fst t1 + fst t2, snd t1 + snd t2)
-    | _, _ => (0, 0)
-    end
+    let ww := get_weight cf a * get_weight cf b in
+    if coincident a b then padd (wterm (ww / 2) (prod1 iv jv a b)) (wterm (ww / 2) (prod1 iv jv b a))
+    else padd (if orient_eqb (pair_side a b) o then wterm ww (prod1 iv jv a b) else (0, 0))
+              (if orient_eqb (flip (pair_side a b)) o then wterm ww (prod1 iv jv b a) else (0, 0))
   else (0, 0).
 
 Lemma pair_lag_spec_asym a b k :
@@ -197,7 +221,8 @@ Lemma pair_updates_cov means a b :
           flat_map (eval_asym (d_npas d)
                       {| p_w1 := get_weight cf a; p_w2 := get_weight cf b;
                          p_dlo := sqrt_lo (g_d2 (geo_pair d a b)); p_dhi := sqrt_hi (g_d2 (geo_pair d a b)); p_ipas := k;
-                         p_orient := if qltb 0 (g_d2 (geo_pair d a b)) && negb neg then Oplus else Ominus |}
+                         p_orient := if qltb 0 (g_d2 (geo_pair d a b)) && negb neg then Oplus else Ominus;
+                         p_coinc := qleb (g_d2 (geo_pair d a b)) 0 |}
                       a b (get_weight cf a * get_weight cf b)) (seq 0 (c_nvar cf))
       end
   end.
@@ -228,7 +253,6 @@ Proof.
       { destruct (pair_in d k a b); [|reflexivity]. destruct PL as [_ PL]. destruct (PL eq_refl) as [_ H]. discriminate. }
       rewrite E. repeat split; reflexivity. }
   pose proof (lag_rank_lt d Hdp _ _ Hd2 EL) as Hk'.
-  (* the orientation computed by isOK *)
   pose proof (isOK_orientation d Hps0 (geo_pair d a b) neg Hcodir EO) as En.
   assert (Eside : (if qltb 0 (g_d2 (geo_pair d a b)) && negb neg then Oplus else Ominus) = pair_side a b).
   { unfold pair_side. cbv zeta. rewrite En.
@@ -242,25 +266,27 @@ Proof.
     rewrite E.
     assert (HPC : (p_ipas PC < d_npas d)%nat) by exact Hk.
     assert (HPO : p_orient PC <> Ozero) by exact Hsnz.
+    fold (coincident a b).
+    assert (T : forall ufld, (forall w v, ufld (au (d_npas d) PC iv jv o w v) == w \/ ufld (au (d_npas d) PC iv jv o w v) == w * v) -> True) by (intros; exact I).
     repeat split.
     + pose proof (fsum_eval_asym_at u_sw (d_npas d) PC a b (get_weight cf a * get_weight cf b) HPC HPO iv jv o (c_nvar cf) Hj Hi Ho) as F.
-      change (p_ipas PC) with k in F. rewrite F. unfold asym_term. change (p_orient PC) with (pair_side a b).
-      destruct (zval a iv) as [z11|]; [|reflexivity]. destruct (zval b iv) as [z12|]; [|reflexivity].
-      cbn [fst].
-      destruct (orient_eqb (pair_side a b) o); destruct (orient_eqb (flip (pair_side a b)) o);
-        destruct (zval b jv); destruct (zval a jv); cbn [fst asym_upd mk_upd u_sw]; ring.
+      change (p_ipas PC) with k in F. rewrite F. unfold asym_term, t1_of, t2_of, prod1, wterm, padd.
+      change (p_orient PC) with (pair_side a b). change (p_coinc PC) with (coincident a b).
+      destruct (coincident a b);
+        destruct (orient_eqb (pair_side a b) o); destruct (orient_eqb (flip (pair_side a b)) o);
+        destruct (zval a iv); destruct (zval b jv); destruct (zval b iv); destruct (zval a jv); cbn [fst snd au mk_upd u_sw]; ring.
     + pose proof (fsum_eval_asym_at u_glo (d_npas d) PC a b (get_weight cf a * get_weight cf b) HPC HPO iv jv o (c_nvar cf) Hj Hi Ho) as F.
-      change (p_ipas PC) with k in F. rewrite F. unfold asym_term. change (p_orient PC) with (pair_side a b).
-      destruct (zval a iv) as [z11|]; [|reflexivity]. destruct (zval b iv) as [z12|]; [|reflexivity].
-      cbn [snd].
-      destruct (orient_eqb (pair_side a b) o); destruct (orient_eqb (flip (pair_side a b)) o);
-        destruct (zval b jv); destruct (zval a jv); cbn [snd asym_upd mk_upd u_glo]; ring.
+      change (p_ipas PC) with k in F. rewrite F. unfold asym_term, t1_of, t2_of, prod1, wterm, padd.
+      change (p_orient PC) with (pair_side a b). change (p_coinc PC) with (coincident a b).
+      destruct (coincident a b);
+        destruct (orient_eqb (pair_side a b) o); destruct (orient_eqb (flip (pair_side a b)) o);
+        destruct (zval a iv); destruct (zval b jv); destruct (zval b iv); destruct (zval a jv); cbn [fst snd au mk_upd u_glo]; ring.
     + pose proof (fsum_eval_asym_at u_ghi (d_npas d) PC a b (get_weight cf a * get_weight cf b) HPC HPO iv jv o (c_nvar cf) Hj Hi Ho) as F.
-      change (p_ipas PC) with k in F. rewrite F. unfold asym_term. change (p_orient PC) with (pair_side a b).
-      destruct (zval a iv) as [z11|]; [|reflexivity]. destruct (zval b iv) as [z12|]; [|reflexivity].
-      cbn [snd].
-      destruct (orient_eqb (pair_side a b) o); destruct (orient_eqb (flip (pair_side a b)) o);
-        destruct (zval b jv); destruct (zval a jv); cbn [snd asym_upd mk_upd u_ghi]; ring.
+      change (p_ipas PC) with k in F. rewrite F. unfold asym_term, t1_of, t2_of, prod1, wterm, padd.
+      change (p_orient PC) with (pair_side a b). change (p_coinc PC) with (coincident a b).
+      destruct (coincident a b);
+        destruct (orient_eqb (pair_side a b) o); destruct (orient_eqb (flip (pair_side a b)) o);
+        destruct (zval a iv); destruct (zval b jv); destruct (zval b iv); destruct (zval a jv); cbn [fst snd au mk_upd u_ghi]; ring.
   - assert (E : pair_in d k a b = false).
     { destruct (pair_in d k a b) eqn:E'; [|reflexivity]. destruct PL as [_ PL]. destruct (PL eq_refl) as [_ H]. congruence. }
     rewrite E.
@@ -268,7 +294,8 @@ Proof.
 Qed.
 
 (* raw accumulators of the covariance: sums over the pairs i<j of the usable samples in the order of the first coordinate *)
-Lemma accumulate1_cov l iv jv k o :
+Lemma accumulate1_cov n l iv jv k o :
+  Forall (same_dim n) l ->
   (jv <= iv)%nat -> (iv < c_nvar cf)%nat -> (k < d_npas d)%nat -> o <> Ozero ->
   let c := nth (dir_address true (d_npas d) iv jv k o) (accumulate1 cf d l) cell0 in
   let L := filter (usable cf) (sort_x1 l) in
@@ -276,7 +303,7 @@ Lemma accumulate1_cov l iv jv k o :
   a_glo c == pair_sum (fun a b => snd (cov_pair iv jv k o a b)) L /\
   a_ghi c == pair_sum (fun a b => snd (cov_pair iv jv k o a b)) L.
 Proof.
-  intros Hj Hi Hk Ho. cbv zeta.
+  intros Hdim Hj Hi Hk Ho. cbv zeta.
   assert (Hasym : is_asym (c_calc cf) = true) by (destruct Hcalc as [E|E]; rewrite E; reflexivity).
   unfold accumulate1, zero_arr. rewrite Hasym.
   set (adr := dir_address true (d_npas d) iv jv k o).
@@ -286,65 +313,103 @@ Proof.
   cbn [spec_cell a_sw a_glo a_ghi] in S1, S4, S5.
   rewrite S1, S4, S5. unfold sum_sw, sum_glo, sum_ghi.
   change (sumQ (map ?f (at_addr adr ?us))) with (fsum f adr us).
-  rewrite !(fsum_reached1 _ cf d _ l adr Hloop Hdp Htol).
+  rewrite !(fsum_reached1 _ cf d _ n l adr Hloop Hdp Htol Hdim).
   unfold pair_sum.
   repeat split; apply sumQ_map_ext; intros [a b] _; cbn [fst snd];
     destruct (cov_pair_fields (stat_means cf l) a b iv jv k o Hj Hi Hk Ho) as (F1 & F2 & F3); assumption.
 Qed.
 
-(* exchanging the two samples of a pair with a non-zero projection on the direction leaves its contribution unchanged *)
-Lemma cov_pair_swap iv jv k o a b :
-  ~ g_dproj (geo_pair d a b) == 0 ->
-  fst (cov_pair iv jv k o a b) == fst (cov_pair iv jv k o b a) /\ snd (cov_pair iv jv k o a b) == snd (cov_pair iv jv k o b a).
+(* d2 = 0 forces the projection to vanish *)
+Lemma coincident_dproj a b : g_d2 (geo_pair d a b) <= 0 -> g_dproj (geo_pair d a b) == 0.
 Proof.
-  intro Hnz. unfold cov_pair. rewrite (pair_in_swap d k a b).
-  destruct (pair_in d k a b); [|split; reflexivity].
-  destruct (geo_swap d a b) as (E1 & E2 & E3 & E4).
-  assert (Hd2 : 0 < g_d2 (geo_pair d a b)).
-  { pose proof (g_d2_nonneg d a b) as H0.
-    destruct (Qlt_le_dec 0 (g_d2 (geo_pair d a b))) as [H|H]; [exact H|]. exfalso. apply Hnz.
-    (* d2 = 0 forces every component of the increment, hence the projection, to vanish *)
-    unfold geo_pair, geo_of in *. cbn [g_d2 g_dproj] in *. rewrite Qred_correct in *.
-    assert (Hz : dot (vsub (s_x b) (s_x a)) (vsub (s_x b) (s_x a)) == 0) by lra.
-    clear - Hz. revert Hz. generalize (d_codir d). induction (vsub (s_x b) (s_x a)) as [|x r IH]; intros c Hz; [reflexivity|].
-    cbn [dot] in *. destruct c as [|y c]; [reflexivity|].
-    assert (Hr : 0 <= dot r r) by (clear; induction r as [|u r IHr]; cbn [dot]; [lra|nra]).
-    assert (Hx : x == 0) by nra. assert (Hr0 : dot r r == 0) by nra.
-    rewrite (IH c Hr0), Hx. ring. }
-  assert (Sab : pair_side b a = flip (pair_side a b)).
-  { unfold pair_side. cbv zeta. rewrite E1. rewrite (proj2 (qltb_true 0 _) Hd2). cbn [andb].
-    destruct (qltb_spec (g_dproj (geo_pair d a b)) 0) as [A|A]; destruct (qltb_spec (g_dproj (geo_pair d b a)) 0) as [B|B];
-      cbn [negb flip]; try reflexivity; exfalso; rewrite E2 in B; lra. }
-  rewrite Sab.
-  assert (Fl : flip (flip (pair_side a b)) = pair_side a b) by (destruct (pair_side a b); reflexivity).
-  rewrite Fl.
-  destruct (zval a iv) as [z11|]; destruct (zval b iv) as [z12|]; try (split; reflexivity).
-  destruct (orient_eqb (pair_side a b) o); destruct (orient_eqb (flip (pair_side a b)) o);
-    destruct (zval b jv); destruct (zval a jv); cbn [fst snd]; split; ring.
+  intro H. pose proof (g_d2_nonneg d a b) as H0.
+  unfold geo_pair, geo_of in *. cbn [g_d2 g_dproj] in *. rewrite Qred_correct in *.
+  assert (Hz : dot (vsub (s_x b) (s_x a)) (vsub (s_x b) (s_x a)) == 0) by lra.
+  clear - Hz. revert Hz. generalize (d_codir d). induction (vsub (s_x b) (s_x a)) as [|x r IH]; intros c Hz; [reflexivity|].
+  cbn [dot] in *. destruct c as [|y c]; [reflexivity|].
+  pose proof (dot_self_nonneg r) as Hr.
+  assert (Hx : x == 0) by nra. assert (Hr0 : dot r r == 0) by nra.
+  rewrite (IH c Hr0), Hx. ring.
 Qed.
 
-(* ... hence, when every pair that can contribute has a direction, the sums can be taken over the data in any order *)
-Lemma accumulate1_cov_unordered l iv jv k o :
+(* exchanging the two samples of a pair leaves its contribution unchanged, unless the pair is orthogonal to the direction
+   without being reduced to a point *)
+Lemma cov_pair_swap iv jv k o a b :
+  coincident a b = true \/ ~ g_dproj (geo_pair d a b) == 0 ->
+  fst (cov_pair iv jv k o a b) == fst (cov_pair iv jv k o b a) /\ snd (cov_pair iv jv k o a b) == snd (cov_pair iv jv k o b a).
+Proof.
+  intro Hdir. unfold cov_pair. rewrite (pair_in_swap d k a b).
+  destruct (pair_in d k a b); [|split; reflexivity].
+  destruct (geo_swap d a b) as (E1 & E2 & E3 & E4).
+  assert (Ec : coincident b a = coincident a b) by (unfold coincident; rewrite E1; reflexivity).
+  rewrite Ec.
+  destruct (coincident a b) eqn:Eco.
+  - unfold padd, wterm, prod1.
+    destruct (zval a iv); destruct (zval b jv); destruct (zval b iv); destruct (zval a jv); cbn [fst snd]; split; ring.
+  - destruct Hdir as [Hdir|Hnz]; [discriminate|].
+    assert (Hd2 : 0 < g_d2 (geo_pair d a b)) by (unfold coincident in Eco; apply qleb_false; exact Eco).
+    assert (Sab : pair_side b a = flip (pair_side a b)).
+    { unfold pair_side. cbv zeta. rewrite E1. rewrite (proj2 (qltb_true 0 _) Hd2). cbn [andb].
+      destruct (qltb_spec (g_dproj (geo_pair d a b)) 0) as [A|A]; destruct (qltb_spec (g_dproj (geo_pair d b a)) 0) as [B|B];
+        cbn [negb flip]; try reflexivity; exfalso; rewrite E2 in B; lra. }
+    rewrite Sab.
+    assert (Fl : flip (flip (pair_side a b)) = pair_side a b) by (destruct (pair_side a b); reflexivity).
+    rewrite Fl. unfold padd, wterm, prod1.
+    destruct (orient_eqb (pair_side a b) o); destruct (orient_eqb (flip (pair_side a b)) o);
+      destruct (zval a iv); destruct (zval b jv); destruct (zval b iv); destruct (zval a jv); cbn [fst snd]; split; ring.
+Qed.
+
+(* ... hence the sums can be taken over the data in any order as soon as no pair that can fall in the lag is orthogonal to the
+   direction (coincident samples are allowed) *)
+Lemma accumulate1_cov_unordered n l iv jv k o :
+  Forall (same_dim n) l ->
   (jv <= iv)%nat -> (iv < c_nvar cf)%nat -> (k < d_npas d)%nat -> o <> Ozero ->
-  (forall a b, In a l -> In b l -> a = b \/ ~ g_dproj (geo_pair d a b) == 0 \/ pair_in d k a b = false) ->
+  (forall a b, In a l -> In b l ->
+     coincident a b = true \/ ~ g_dproj (geo_pair d a b) == 0 \/ pair_in d k a b = false) ->
   let c := nth (dir_address true (d_npas d) iv jv k o) (accumulate1 cf d l) cell0 in
   let L := filter (usable cf) l in
   a_sw c == pair_sum (fun a b => fst (cov_pair iv jv k o a b)) L /\
   a_glo c == pair_sum (fun a b => snd (cov_pair iv jv k o a b)) L /\
   a_ghi c == pair_sum (fun a b => snd (cov_pair iv jv k o a b)) L.
 Proof.
-  intros Hj Hi Hk Ho Hdir. cbv zeta.
-  destruct (accumulate1_cov l iv jv k o Hj Hi Hk Ho) as (A1 & A2 & A3).
+  intros Hdim Hj Hi Hk Ho Hdir. cbv zeta.
+  destruct (accumulate1_cov n l iv jv k o Hdim Hj Hi Hk Ho) as (A1 & A2 & A3).
   assert (Hp : Permutation (filter (usable cf) (sort_x1 l)) (filter (usable cf) l)) by (apply filter_perm; apply sort_perm).
   assert (Hin : forall x, In x (filter (usable cf) (sort_x1 l)) -> In x l).
   { intros x Hx. apply filter_In in Hx. destruct Hx as [Hx _]. eapply Permutation_in; [apply sort_perm|exact Hx]. }
   assert (Hsym : forall a b, In a (filter (usable cf) (sort_x1 l)) -> In b (filter (usable cf) (sort_x1 l)) ->
                  fst (cov_pair iv jv k o a b) == fst (cov_pair iv jv k o b a) /\ snd (cov_pair iv jv k o a b) == snd (cov_pair iv jv k o b a)).
   { intros a b Ha Hb. destruct (Hdir a b (Hin a Ha) (Hin b Hb)) as [E|[E|E]].
-    - subst b. split; reflexivity.
-    - apply cov_pair_swap. exact E.
+    - apply cov_pair_swap. left; exact E.
+    - apply cov_pair_swap. right; exact E.
     - unfold cov_pair. rewrite (pair_in_swap d k a b), E. split; reflexivity. }
   rewrite A1, A2, A3.
   repeat split; apply pair_sum_perm_on; try exact Hp; intros a b Ha Hb; apply (Hsym a b Ha Hb).
+Qed.
+
+(* exchange of the two variables: the pair term of C_ij on one side is the pair term of C_ji on the other side,
+   whatever values are missing *)
+Lemma cov_pair_mirror iv jv k o a b :
+  o <> Ozero ->
+  fst (cov_pair iv jv k o a b) == fst (cov_pair jv iv k (flip o) a b) /\
+  snd (cov_pair iv jv k o a b) == snd (cov_pair jv iv k (flip o) a b).
+Proof.
+  intro Ho. unfold cov_pair.
+  destruct (pair_in d k a b); [|split; reflexivity].
+  assert (Hs : pair_side a b <> Ozero).
+  { unfold pair_side. cbv zeta. destruct (qltb 0 (g_d2 (geo_pair d a b)) && negb (qltb (g_dproj (geo_pair d a b)) 0)); discriminate. }
+  unfold padd, wterm, prod1.
+  destruct (coincident a b).
+  - destruct (zval a iv); destruct (zval b jv); destruct (zval b iv); destruct (zval a jv); cbn [fst snd]; split; ring.
+  - destruct (pair_side a b), o; try congruence; cbn [orient_eqb flip];
+      destruct (zval a iv); destruct (zval b jv); destruct (zval b iv); destruct (zval a jv); cbn [fst snd]; split; ring.
+Qed.
+Lemma cov_sums_mirror iv jv k o L :
+  o <> Ozero ->
+  pair_sum (fun a b => fst (cov_pair iv jv k o a b)) L == pair_sum (fun a b => fst (cov_pair jv iv k (flip o) a b)) L /\
+  pair_sum (fun a b => snd (cov_pair iv jv k o a b)) L == pair_sum (fun a b => snd (cov_pair jv iv k (flip o) a b)) L.
+Proof.
+  intro Ho. unfold pair_sum. split; apply sumQ_map_ext; intros [a b] _; cbn [fst snd];
+    destruct (cov_pair_mirror iv jv k o a b Ho) as [M1 M2]; assumption.
 Qed.
 End CovMain.
